@@ -143,7 +143,7 @@ type Ctx struct {
 
 // Start parses the standard flags.
 func Start(domain string) *Ctx {
-	c := &Ctx{hist: map[string]int{}, distinct: map[string]struct{}{}, extra: map[string]any{}, perClass: map[string]int{}}
+	c := &Ctx{samples: []string{}, hist: map[string]int{}, distinct: map[string]struct{}{}, extra: map[string]any{}, perClass: map[string]int{}}
 	flag.StringVar(&c.Prop, "prop", "", "property id")
 	flag.StringVar(&c.Tier, "tier", "quick", "quick|thorough")
 	flag.StringVar(&c.Out, "out", "", "output directory")
